@@ -138,10 +138,10 @@ func TestVerifC04(t *testing.T) {
 		"Ensure is treated as always enabled; Ensure visiting order owned through hook H2")
 	var cfgs []*erConfig
 	if r.Quick() {
-		cfgs = enumConfigs([]int{1, 2, 3}, scriptSpace{failDo: 1, failUndo: 1, specials: []script{sNoUndo, sRetryOnce, sRetryAfter, sWaitDone}, maxSpecial: 1}, false, []int{0, 2})
+		cfgs = enumConfigs([]int{1, 2, 3}, scriptSpace{failDo: 1, failUndo: 1, specials: []script{sNoUndo, sRetryOnce, sRetryAfter, sWaitDone, sWaitDo, sUndoWait}, maxSpecial: 1}, false, []int{0, 2})
 		cfgs = append(cfgs, enumConfigs([]int{3}, scriptSpace{failDo: 1, requireFail: true, specials: []script{sNoUndo}, maxSpecial: 1}, true, []int{0})...)
 	} else {
-		cfgs = enumConfigs([]int{1, 2, 3}, scriptSpace{failDo: 1, failUndo: 1, specials: []script{sNoUndo, sRetryOnce, sRetryAfter, sWaitDone}, maxSpecial: 1}, true, []int{0, 1, 2})
+		cfgs = enumConfigs([]int{1, 2, 3}, scriptSpace{failDo: 1, failUndo: 1, specials: []script{sNoUndo, sRetryOnce, sRetryAfter, sWaitDone, sWaitDo, sUndoWait}, maxSpecial: 1}, true, []int{0, 1, 2})
 		cfgs = append(cfgs, enumConfigs([]int{4}, scriptSpace{failDo: 1, failUndo: 0, specials: []script{sNoUndo, sWaitDone}, maxSpecial: 1}, false, []int{0})...)
 	}
 	crashes := r.Pick(1, 2)
